@@ -4,6 +4,6 @@ CLAIM = dict(
     level='exploration',
     design_ref='DESIGN.md section 7 C10',
     technique='TLA+ definitional spec (UnixStr.tla) enumerated by TLC as input/expected-output oracle; real results judged by TLC (UnixStrJudge.tla)',
-    text="TLC enumerates every byte string up to the bound (alphabet NUL, '/', ASCII, 0xff) and every operand pair, predicts each constructor's exact stored bytes and judges the stored bytes of every produced value against the termination obligation; exhaustive small scope + random long operands + real directory entries. A pure-function property: TLA+ supplies the independent definition and the exhaustive judge, not a state-space argument.",
+    text="TLC enumerates every byte string up to the bound (alphabet NUL, '/', ASCII, 0xff) and every operand pair, predicts each constructor's exact stored bytes and judges the stored bytes of every produced value against the termination obligation; exhaustive small scope + random long operands + every text length 0..600 (with and without a terminator) + the formatted constructors with the text handed over in pieces cut at every boundary + real directory entries of every name length 1..255; an operation that does not return or faults is a violation. A pure-function property: TLA+ supplies the independent definition and the exhaustive judge, not a state-space argument.",
     note="Trusted: TLC, the definitional operators of UnixStr.tla, the driver's observation through as_slice(). Strings longer than the bound are sampled; unix_lit! is judged via from_str_checked at run time.",
 )
